@@ -210,6 +210,10 @@ func (r *RigS) onRegistration(st *SimStream) {
 			// the persisted checkpoint had passed messages that travelled in forwarded packs (KF forwarded-pack-overtaken)
 			cls = "_forwarded_pack_overtaken"
 			r.st.Overtaken[key] = append(r.st.Overtaken[key], skipped...)
+		} else if r.consequenceOfTimeSkip(key, skipped) {
+			// an earlier resume of this stream dropped these very messages through the time filter; the stream went on, the
+			// checkpoint passed them, and this resume starts behind them
+			cls = "_after_restamped_time_skip"
 		}
 		r.s.Violate("C05", "resume_skips_unacked"+cls, "stream %s of task %s registered at msg id %d / ts %d skips messages (tags %v) that the downstream never acknowledged", st.Key(), owner, st.SeekSeq, st.SeekTs, skipped)
 	}
@@ -330,17 +334,23 @@ func (r *RigS) checkpointFromEarlierRegistration(task string, tgt int, coll int6
 		return false
 	}
 	cur := -1
+	earlier := false // a registration of this stream that was closed meanwhile handed out a pack ending at this very message id
 	for _, st := range r.mq.All {
-		if st.Coll != coll || st.Shard != shard || st.PCh == replicateChan || st.Closed || r.targetOfStream(st) != tgt {
+		if st.Coll != coll || st.Shard != shard || st.PCh == replicateChan || r.targetOfStream(st) != tgt {
 			continue
 		}
 		for _, dp := range st.Delivered {
-			if dp.EndSeq > cur {
+			if st.Closed && dp.EndSeq == seq {
+				earlier = true
+			}
+			if !st.Closed && dp.EndSeq > cur {
 				cur = dp.EndSeq
 			}
 		}
 	}
-	if seq > cur {
+	if seq > cur || earlier {
+		// (second case: the earlier registration's pack - cut differently, e.g. tick-only - overtook the pack with the same end
+		// id that the current registration read again)
 		r.s.Probe("checkpoint_from_earlier_registration")
 		return true
 	}
